@@ -128,3 +128,109 @@ theorem C16_no_panic_stage2 (c : Cfg) (raw : RawItem) (hraw : RawOK raw) : NoPan
   exact NoPanic.ok _
 
 end DW
+
+namespace DW
+
+theorem findCrate_noPanic : ∀ (attrs : List RawAttr) (acc : Option MPath) (e : Err),
+    findCrate attrs acc = .error e → e.isPanic = false := by
+  intro attrs
+  induction attrs with
+  | nil => intro acc e h; cases h
+  | cons a attrs ih =>
+    intro acc e h
+    cases a with
+    | dw b =>
+      simp only [findCrate] at h
+      repeat' split at h
+      all_goals first | (cases h; rfl) | exact ih _ _ h | skip
+      all_goals (
+        rename_i v _ _ _ _ heq
+        cases h
+        cases v <;> simp at heq <;> (subst heq; rfl))
+    | dwQualified _ _ => exact ih _ _ h
+    | repr _ => exact ih _ _ h
+    | bare _ => exact ih _ _ h
+    | other => exact ih _ _ h
+
+/-- What the user's crate receives from the whole pipeline (attribute macro, then derive macro). -/
+inductive PipelineOut where
+  /-- the item (forwarded tokens) plus the impls -/
+  | expanded (item : Toks) (impls : List (DeriveTrait × List Impl))
+  /-- the item and one `compile_error!` carrying `e`'s message -/
+  | rejected (e : Err) (item : Toks)
+
+/-- `derive_where` followed by `derive_where_actual` on the forwarded item. -/
+def pipeline (c : Cfg) (raw : RawItem) (segs : List Seg) : PipelineOut :=
+  match stage1 raw segs with
+  | .failed e item => .rejected e item
+  | .forward t =>
+    match deriveWhere c raw with
+    | .ok (_, impls) => .expanded t impls
+    | .error e => .rejected e t       -- a derive is additive: the item it was applied to stays
+
+/-- The tokens of the item outside its `#[derive_where ..]` attributes, in order. -/
+def itemProper (segs : List Seg) : Toks :=
+  segs.flatMap fun s => match s with
+    | .attr true _ => []
+    | s => s.all
+
+/-- `l` occurs in `m` as a subsequence of blocks: `m` is `l` with token runs inserted. -/
+inductive Interleaved : List Seg → Toks → Prop where
+  | nil (extra : Toks) : Interleaved [] extra
+  | keep (s : Seg) (rest : List Seg) (pre : Toks) (m : Toks) : Interleaved rest m → Interleaved (s :: rest) (pre ++ s.all ++ m)
+
+theorem Interleaved.append_all (a : List Seg) (m : Toks) (rest : List Seg) (h : Interleaved rest m) :
+    Interleaved (a ++ rest) (a.flatMap Seg.all ++ m) := by
+  induction a with
+  | nil => simpa using h
+  | cons s a ih =>
+    have := Interleaved.keep s (a ++ rest) [] (a.flatMap Seg.all ++ m) ih
+    simpa [List.flatMap_cons, List.append_assoc] using this
+
+theorem Interleaved.prepend (pre : Toks) (l : List Seg) (m : Toks) (h : Interleaved l m) : Interleaved l (pre ++ m) := by
+  cases h with
+  | nil extra => exact Interleaved.nil _
+  | keep s rest p m' h' =>
+    have := Interleaved.keep s rest (pre ++ p) m' h'
+    simpa [List.append_assoc] using this
+
+/-- **C16, whole pipeline.**  For every item and attribute contents the user's crate receives either the item
+with impls or the item with one ordinary error — never a proc-macro panic — and in every case every token run and
+every attribute of the item is still there, in order: on a stage-1 error exactly the item without its
+`derive_where` attributes (so that nothing re-triggers the macro), otherwise the forwarded item, which contains all
+segments of the original. -/
+theorem C16_pipeline (c : Cfg) (raw : RawItem) (segs : List Seg) (hraw : RawOK raw) :
+    (∃ item impls, pipeline c raw segs = .expanded item impls ∧ Interleaved segs item) ∨
+    (∃ e item, pipeline c raw segs = .rejected e item ∧ e.isPanic = false ∧
+      (item = itemProper segs ∨ Interleaved segs item)) := by
+  unfold pipeline
+  cases h1 : stage1 raw segs with
+  | failed e item =>
+    refine Or.inr ⟨e, item, rfl, ?_, Or.inl (C16_stage1_item_kept raw segs e item h1)⟩
+    -- stage-1 errors are `Error::..` values, never panics
+    unfold stage1 at h1
+    split at h1
+    · rename_i e' hfc
+      cases h1
+      exact findCrate_noPanic _ _ _ hfc
+    · simp only at h1
+      split at h1
+      · cases h1; rfl
+      · cases h1
+  | forward t =>
+    obtain ⟨pre, mid, a, b, hab, ht⟩ := C16_stage1_forward raw segs t h1
+    have hint : Interleaved segs t := by
+      rw [ht, ← hab, List.append_assoc, List.append_assoc]
+      exact Interleaved.prepend pre _ _ (Interleaved.append_all a _ b
+        (Interleaved.prepend mid _ _ (by
+          have := Interleaved.append_all b [] [] (Interleaved.nil [])
+          simpa using this)))
+    cases h2 : deriveWhere c raw with
+    | ok r => exact Or.inl ⟨t, r.2, rfl, hint⟩
+    | error e =>
+      refine Or.inr ⟨e, t, rfl, ?_, Or.inr hint⟩
+      cases e with
+      | panic s => exact absurd h2 (C16_no_panic_stage2 c raw hraw s)
+      | _ => rfl
+
+end DW
